@@ -3,6 +3,7 @@ This module contains the parser for the FPy language.
 """
 
 import ast
+import math
 from collections.abc import Callable, Mapping
 from typing import Any
 
@@ -10,7 +11,7 @@ from ..ast.fpyast import *
 from ..env import ForeignEnv
 from ..number import Float, Real
 from ..ops import *
-from ..utils import NamedId, SourceId, UnderscoreId
+from ..utils import NamedId, SourceId, UnderscoreId, decnum_to_fraction
 
 _nullary_table: dict[Callable, type[NullaryOp]] = {
     nan: ConstNan,
@@ -286,7 +287,6 @@ class Parser:
             return SourceId(e.id, loc)
 
     def _parse_constant(self, e: ast.Constant):
-        # TODO: reparse all constants to get exact value
         loc = self._parse_location(e)
         match e.value:
             case bool():
@@ -294,10 +294,22 @@ class Parser:
             case int():
                 return Integer(e.value, loc)
             case float():
-                if e.value.is_integer():
+                # re-read the spelling: `e.value` is already rounded to a double
+                text = ast.get_source_segment(''.join(self.lines), e)
+                if text is None:
+                    text = repr(e.value)
+                mant, _, exp = text.replace('_', '').lower().partition('e')
+                ipart, _, fpart = mant.partition('.')
+                val = f'{ipart or "0"}.{fpart or "0"}' + (f'e{exp}' if exp else '')
+                x = decnum_to_fraction(val)
+                if x.denominator != 1:
+                    return Decnum(val, loc)
+                elif math.isfinite(e.value):
+                    # an integer spelled with a point or an exponent (`1e300`)
+                    # stays the double Python read, as it always has been
                     return Integer(int(e.value), loc)
                 else:
-                    return Decnum(str(e.value), loc)
+                    return Integer(int(x), loc)
             case str():
                 return ForeignVal(e.value, loc)
             case None:
